@@ -274,6 +274,11 @@ var c13Extra = []string{
 	"<?php use Lib\\Http\\Client; use Vendor\\Net\\CLIENT; use function A\\foo; use function B\\FOO; use const C\\K; use const D\\k; new client; new Client\\X; Foo(); echo K, k;",
 	"<?php namespace N; use A\\{B, b as C, c}; use A\\B as c; new b; new C; new B\\D; function f(c $x): B {}",
 	"<?php use FUNCTION Foo\\bar; use CONST Foo\\BAZ; use A\\{Function f, CONST C, D}; use Function A\\{g}; bar(); BAZ; f(); C; new D; g();",
+	// a name is referenced in one namespace and imported (plain, typed, in a mixed group) in a later one: what an operation
+	// learns in one place must not be there when the same place is visited again
+	"<?php namespace App\\Http { route(); echo LIMIT; new Mailer; } namespace App\\Support { use Lib\\{Mailer, function route, const LIMIT}; route(); echo LIMIT; new Mailer; }",
+	"<?php namespace App\\Http; route(); echo LIMIT; new Mailer; namespace App\\Support; use function Lib\\route; use const Lib\\LIMIT; use Lib\\Mailer; route(); echo LIMIT; new Mailer;",
+	"<?php route(); echo LIMIT; new Mailer; define('App\\\\VERSION', \"a\\\"b\"); use Lib\\{Mailer, function route, const LIMIT}; route(); echo LIMIT, 'it\\'s', \"q\\\\\"; new Mailer;",
 	// long tokens and long data (an operation that shortens, caches or rewrites what it shows must do so on its own copy)
 	"<?php $a; __halt_compiler();0123456789abcdef0123456789abcdef0",
 	"<?php __halt_compiler();\n" + strings.Repeat("0123456789abcdef", 20) + "\n<?php not code",
